@@ -23,21 +23,28 @@ DIFFS = ["name", "content", "content-none-vs-empty", "tail", "attr-add", "attr-d
 
 @st.composite
 def pair_case(draw):
+    from vf.pre import Pre
+    pre = Pre(draw, 24)     # control choices first (vf/pre.py)
+    none_values, equal_pair = pre.bool(), pre.chance(5)
+    sel, kind, arg, rekey_none = pre.int(0, 10 ** 6), pre.pick(DIFFS), pre.int(0, 5), pre.bool()
     sp = draw(treegen.arb_spec(18))
-    if draw(st.booleans()):
+    if none_values:
         # dictionary values may be None (a JSON null, or set through the API); a missing key is not a None value
         for _, s in treegen.spec_nodes(sp):
             for fld in ("a", "x"):
-                if s.get(fld) and draw(st.integers(0, 2)) == 0:
+                if s.get(fld) and pre.chance(3):
                     k = sorted(s[fld])[0]
                     s[fld][k] = None
-    if draw(st.integers(0, 4)) == 0:
+    if equal_pair:
         return sp, None
     allp = list(treegen.spec_nodes(sp))
-    path, _ = allp[draw(st.integers(0, len(allp) - 1))]
-    kind = draw(st.sampled_from(DIFFS))
-    arg = draw(st.integers(0, 5))
-    if kind in ("extra-rekey", "attr-rekey") and draw(st.booleans()):
+    fld = {"attr-del": "a", "attr-change": "a", "attr-rekey": "a", "extra-change": "x", "extra-rekey": "x", "ns-change": "ns",
+           "ns-rekey": "ns", "child-del": "k", "child-swap": "k"}.get(kind)
+    if fld:     # the difference lands on a node that has the field whenever the tree has one
+        able = [(p, x) for p, x in allp if len(x.get(fld) or ()) >= (2 if kind == "child-swap" else 1)]
+        allp = able or allp
+    path, _ = allp[sel % len(allp)]
+    if kind in ("extra-rekey", "attr-rekey") and rekey_none:
         node = treegen.spec_at(sp, path)
         fld = {"extra": "x", "attr": "a"}[kind.split("-")[0]]
         if node.get(fld):
@@ -209,8 +216,11 @@ def check_copy(sp, node_idx, side, edit, target_idx):
 
 @st.composite
 def copy_case(draw):
+    from vf.pre import Pre
+    pre = Pre(draw, 8)
+    at, side, edit, target = (0 if pre.bool() else pre.int(0, 50)), pre.bool(), pre.pick(EDITS), pre.int(0, 50)
     sp = draw(treegen.arb_spec(14))
-    return (sp, draw(st.integers(0, 50)), draw(st.booleans()), draw(st.sampled_from(EDITS)), draw(st.integers(0, 50)))
+    return (sp, at, side, edit, target)
 
 
 def hyp_shard(ctx, shard):
